@@ -34,6 +34,8 @@ DESCS = [
     ("st", {"a": U1}), ("st", {"a": U1, "b": U2}), ("st", {"b": U2, "c": S2}), ("st", {"a": U2}), ("st", {"a": U1, "b": U2, "c": S2}),
     ("st", {"p": ("st", {"a": U1, "b": U2}), "q": U2}), ("st", {"p": ("st", {"a": U1}), "q": U2}), ("st", {"p": ("st", {"b": U2, "c": S2})}),
     ("ar", U2, 2), ("ar", ("st", {"a": U1}), 2), U2, U1, S2,
+    # the same field name with another signedness / width, so that a signed View field meets a differently shaped dict entry
+    ("st", {"c": U2}), ("st", {"c": ("s", 1)}), ("st", {"b": U2, "c": ("s", 3)}),
 ]
 MODES = ["COMMON", "LHS", "RHS", "ALL"]
 
